@@ -7,6 +7,21 @@ HERE = os.path.dirname(os.path.dirname(os.path.abspath(__file__)))
 BASELINE = "cd /repo && /venv/bin/python -m pytest -ra -q -p no:cacheprovider --timeout=900 --continue-on-collection-errors"
 
 CHECKS = {
+    'C02': dict(
+        text='Lean theorems (mutual structural induction over the whole expression AST, unbounded depth): for any precedence table '
+             'satisfying the decidable obligation TableOK the parentheses the printer inserts are sufficient for CPython\'s grammar levels '
+             '(Gram) and erasing them returns the input; TableOK is re-proved by decide on the table regenerated from the running '
+             'ExpressionPrinter on every run; tokens the tokenizer would glue are separated (generated spacing lists, decide); integer '
+             'literals denote their value in decimal or hex; every statement class has a dispatch entry. Tie: the Lean printer model '
+             '(tokens, expressions, statements, layout) is compared byte for byte with ModulePrinter on an exhaustive slot x child-class '
+             'enumeration, a pinned corpus and random trees; the grammar spec Gram is validated against ast.parse under perturbed tables; '
+             'strict round trip on the real unparse / minify(all off) is the failing-input search.',
+        note='Proved: expression parenthesisation, token separation, integer spelling. Modelled and tied by correspondence only: statement '
+             'slots, suite layout, float/complex post-processing. Assumed: repr of str/bytes/float, ast.parse. f-strings: text taken from '
+             'the implementation inside the model; covered by the real-code oracle only. Python <= 3.7 node classes not modelled; other '
+             'interpreters (3.8-3.11, 3.13) only through the oracle in the thorough tier.',
+        technique='Lean 4 proof (mutual structural induction + decision table by decide on generated tables) + model/implementation correspondence + spec validation',
+        ref='§6 C02'),
     'C13': dict(
         text='Lean theorems over a model of argparse boolean flags + do_minify forwarding: for every argv the forwarded keywords equal '
              'the documented function of the set of flags present (parametric in the table; the table is regenerated from the running '
